@@ -86,6 +86,8 @@ J06(o, P, D) ==
   IF \E k \in 1..Len(o.asks) : \E j \in 1..(k - 1) : o.asks[j].i = o.asks[k].i THEN "an input was asked for twice"
   ELSE IF o.abort = "" /\ \E l \in DOMAIN o.evals : o.evals[l] > o.enq[l] * (1 + Distinct(o.waits[l])) + o.loads[l]
        THEN "a line was evaluated more often than scheduled + distinct waits + loads"
+  ELSE IF o.abort = "" /\ \E l \in DOMAIN o.enq : o.enq[l] > 2 + CountIn(P.request, P.cat.formOf[l]) + CountIn(P.fieldNames, l)
+       THEN "a line was scheduled more often than its form was requested (+ explicit request + first demand + discovery)"
   ELSE IF o.abort = "" /\ \E l \in DOMAIN o.waits : \E d \in SeqToSet(o.waits[l]) : CountIn(o.waits[l], d) > o.enq[l]
        THEN "a line waited twice for the same dependency"
   ELSE IF o.abort = "" /\ ~D.start /\ \E l \in D.D : ~(l \in DOMAIN o.vals \/ l \in SeqToSet(o.unimpl)
